@@ -41,15 +41,19 @@ open Finset BigOperators
     `get_nn_full_liouvillians` -/
 def numBonds (n : ℕ) : ℕ := (TebdLayers.bond_range_stop (n : ℤ)).toNat
 
-/-- Python's `gates[start::step]` for the gate list `[gate 0, …, gate (m-1)]` (gate `i` acts on
-    bond `i`, i.e. on the sites `i`, `i+1`): the bonds of the slice, ascending -/
+/-- Python's `gates[start::step]` for the gate list `[gate 0, …, gate (m-1)]`: the POSITIONS
+    (= indices of the bond Liouvillians the gates were built from) of the slice, ascending -/
 def sliceBonds (m : ℕ) (sl : ℕ × ℕ) : List ℕ :=
   (List.range m).filter (fun i => decide (sl.1 ≤ i ∧ (i - sl.1) % sl.2 = 0))
 
-/-- the bonds of Trotter layer `ℓ` (index into `trotter_slices`) -/
+/-- the bond (left site) the gate built from `nn_full_liouvillians[i]` acts on: the generated
+    `site=` argument of `compute_nn_gate` -/
+def gateSite (i : ℕ) : ℕ := (TebdLayers.gate_site (i : ℤ)).toNat
+
+/-- the bonds the gates of Trotter layer `ℓ` (index into `trotter_slices`) act on -/
 def layerBonds (n ℓ : ℕ) : List ℕ :=
   match TebdLayers.trotter_slices[ℓ]? with
-  | some sl => sliceBonds (numBonds n) sl
+  | some sl => (sliceBonds (numBonds n) sl).map gateSite
   | none => []
 
 /-- the row of `order_table` for a Trotter order -/
